@@ -84,6 +84,104 @@ def phasefield_history_replacement(ctx):
     ctx.count(2, distinct_key=("phasefield-history-replacement",))
 
 
+def beam_section_replacement(ctx):
+    """the cross-section of a member is a model parameter like any other: after beam.section = <other section> the matrices
+    and the solution equal those of a structure built with that section (area, inertias AND shear correction factors)."""
+    from EasyFEA import Mesher, ElemType
+    from EasyFEA.Geoms import Circle, Point
+
+    def round_section():
+        with lc.quiet():
+            return Mesher().Mesh_2D(Circle(Point(), 0.16, 0.03), [], ElemType.TRI6)
+
+    for timo in (False, True):
+        tag = f"Beam{'-Timoshenko' if timo else ''}"
+        ad = lc.BeamAdapter(timo=timo)
+        w = lc.World(ad)
+        sim = w.sims["s1"]
+        try:
+            with lc.quiet():
+                sim.Solve()
+                sim.structure.beams[1].section = round_section()
+                model = ad.make_model(0)
+                model.beams[1]._Beam__name = "tmp"
+                bs = ad.beams(0)
+            # the structure built directly with the round section for member B
+            from EasyFEA import Models
+
+            with lc.quiet():
+                b2 = Models.Beam.Isotropic(2, bs[1].line, round_section(), 20.0, 0.25)
+            b2._Beam__name = "memberB"
+            with lc.quiet():
+                fresh = ad.make_sim(ad.base_mesh("A"), Models.Beam.BeamStructure([bs[0], b2]))
+            w.apply_bc_op(fresh, ("set", 0))
+            for nm, g, e in zip("KCMF", ad.kcmf(sim), ad.kcmf(fresh)):
+                if lc.relerr(g, e) > lc.TOL:
+                    ctx.violation(f"{tag}/stale/{nm}/SetSection", f"{tag}: {nm} after beam.section = <round section> differs from a structure built with that section (rel err {lc.relerr(g, e):.3g})", {"adapter": tag})
+            with lc.quiet():
+                sim.Solve()
+                fresh.Solve()
+            if lc.relerr(sim.displacement, fresh.displacement) > 1e-7:
+                ctx.violation(f"{tag}/stale/solution-u/SetSection", f"{tag}: solution after beam.section = <round section> differs from a structure built with that section (rel err {lc.relerr(sim.displacement, fresh.displacement):.3g})", {"adapter": tag})
+        except Exception as ex:
+            ctx.violation(f"{tag}/stale/solve-raises/SetSection", f"{tag}: replacing a section then solving raises {type(ex).__name__}: {ex}", {"adapter": tag})
+        finally:
+            w.close()
+        ctx.count(3, distinct_key=("beam-section-replacement", timo))
+
+
+def inelastic_mesh_replacement(ctx):
+    """a simulation with internal variables: plastic steps, then simu.mesh = <copy>, then a small step: displacement, results
+    and the stored internal state equal those of a new simulation on that mesh (the displacement restarts, so does the state)."""
+    import numpy as np
+    from EasyFEA import Models, Simulations
+    from EasyFEA.FEM import ElemType
+
+    IE = Models.InElastic
+
+    def law():
+        return IE.Behavior(2, Models.Elastic.Isotropic(3, E=200.0, v=0.3), yieldSurface=IE.Yield.VonMises(1.0), hardening=IE.IsotropicHardening.Linear(20.0), kinematic=IE.KinematicHardening.Prager(10.0))
+
+    def step(sim, val):
+        mesh = sim.mesh
+        left = mesh.Nodes_Conditions(lambda x, y, z: x == 0)
+        right = mesh.Nodes_Conditions(lambda x, y, z: x == x.max())
+        with lc.quiet():
+            sim.Bc_Init()
+            sim.add_dirichlet(left, [0, 0], ["x", "y"])
+            sim.add_dirichlet(right, [val], ["x"])
+            sim.Solve()
+            sim.Save_Iter()
+
+    for label, other in (("same-size", lambda m: m.copy()), ("other-size", lambda m: lc._grid_mesh(3, 2, ElemType.QUAD4))):
+        try:
+            mesh = lc._grid_mesh(2, 1, ElemType.QUAD4)
+            with lc.quiet():
+                sim = Simulations.InElastic(mesh, law(), verbosity=False)
+            step(sim, 0.05)
+            step(sim, 0.02)
+            m2 = other(mesh)
+            with lc.quiet():
+                sim.mesh = m2
+                fresh = Simulations.InElastic(m2.copy(), law(), verbosity=False)
+            step(sim, 0.001)
+            step(fresh, 0.001)
+            err = lc.relerr(sim.displacement, fresh.displacement)
+            if err > 1e-7:
+                ctx.violation(f"InElastic/stale/solution-u/SetMesh/{label}", f"InElastic: displacement after plastic steps -> simu.mesh = <{label} mesh> -> small step differs from a new simulation on that mesh (rel err {err:.3g})", {"adapter": "InElastic", "mesh": label})
+            for rn in ("Svm", "p"):
+                try:
+                    with lc.quiet():
+                        ra, rb = np.asarray(sim.Result(rn, False)), np.asarray(fresh.Result(rn, False))
+                except Exception:
+                    continue
+                if lc.relerr(ra, rb) > 1e-7:
+                    ctx.violation(f"InElastic/stale/result-{rn}/SetMesh/{label}", f"InElastic: Result('{rn}') after the mesh replacement differs from a new simulation (max {np.abs(ra).max():.3g} vs {np.abs(rb).max():.3g})", {"adapter": "InElastic", "mesh": label})
+        except Exception as ex:
+            ctx.violation(f"InElastic/stale/solve-raises/SetMesh/{label}", f"InElastic: plastic steps -> simu.mesh = <{label} mesh> -> Solve raises {type(ex).__name__}: {ex}, while a new simulation on that mesh solves", {"adapter": "InElastic", "mesh": label})
+        ctx.count(3, distinct_key=("inelastic-mesh-replacement", label))
+
+
 def run(ctx):
     if ctx.replay:
         import json
@@ -115,6 +213,8 @@ def run(ctx):
         lc.simulate_and_replay(ctx, name, lc.CACHE_ACTS, num // 3, 12, ctx.seed + 6, label="cache")
     beam_mesh_replacement(ctx)
     phasefield_history_replacement(ctx)
+    beam_section_replacement(ctx)
+    inelastic_mesh_replacement(ctx)
     # direction B: the repository's own tests as drivers, judged by Trace_Lifecycle.tla
     from harness import repo_trace
 
